@@ -6,6 +6,7 @@
 package simrt
 
 import (
+	"errors"
 	"fmt"
 	"hash/fnv"
 	"math/rand/v2"
@@ -623,6 +624,15 @@ func Exit(code int) {
 		OnExit(r)
 	}
 	os.Exit(0)
+}
+
+// StartProcess replaces os.StartProcess in instrumented code: a simulated run starts no processes.
+func StartProcess(name string, argv []string, attr *os.ProcAttr) (*os.Process, error) {
+	if !active.Load() || !inBubble() {
+		return os.StartProcess(name, argv, attr)
+	}
+	Event("os.StartProcess(%s) requested by code under test: refused by the simulator", name)
+	return nil, errors.New("simulated run: no process is started")
 }
 
 // Draw draws from the tape. Only the goroutine released by the scheduler may
